@@ -656,6 +656,26 @@ func (m *Machine) coverOp(c *Term, id string) {
 
 func (m *Machine) runThreads(main *Thread) {
 	blockedAt := map[*Thread]int{}
+	// Partial-order reduction: the code of a thread before its first yield point (its first lock
+	// or database operation) touches no shared state, so it commutes with everything; run those
+	// prefixes in a fixed order instead of branching over their order.
+	for _, t := range m.threads {
+		if t == main || t.done || t.started {
+			continue
+		}
+		t.started = true
+		m.yieldRequested = false
+		m.runThread(t)
+		if t.panic != nil && len(t.stack) == 0 {
+			main.panic = t.panic
+			m.cur = main
+			panic(t.panic)
+		}
+		if t.blocked {
+			blockedAt[t] = m.progress
+		}
+	}
+	m.progress++
 	for {
 		var cands []*Thread
 		allDone := true
